@@ -328,19 +328,27 @@ The parameters of this process are described within the [Stack.IsEqual]
 notes.
 */
 func (r Condition) IsEqual(o any) (err error) {
-	if r.IsInit() {
-		// handle condition/condition-alias assertion
-		// and exit immediately if it fails due to a
-		// bad type, or uninitialized input for o.
-		if s, ok := conditionTypeAliasConverter(o); ok {
-			if fn := r.condition.cfg.eqf; fn != nil {
-				// use the user-authored closure assertion
-				err = fn(r, o)
-			} else {
-				// use default assertion
-				err = r.condition.isEqual(s.condition)
-			}
-		}
+	if !r.IsInit() {
+		err = errorf("Not initialized")
+		return
+	}
+
+	// handle condition/condition-alias assertion
+	// and exit immediately if it fails due to a
+	// bad type, or uninitialized input for o: a
+	// nil error would read as "equal".
+	s, ok := conditionTypeAliasConverter(o)
+	if !ok {
+		err = errorf("Cannot perform equality assertion; bad input")
+		return
+	}
+
+	if fn := r.condition.cfg.eqf; fn != nil {
+		// use the user-authored closure assertion
+		err = fn(r, o)
+	} else {
+		// use default assertion
+		err = r.condition.isEqual(s.condition)
 	}
 
 	return
